@@ -3,47 +3,55 @@
 #include "vh.hpp"
 #include <nstd/Document/Json.hpp>
 
+#include <nstd/Error.hpp>
+
+static void fputhex(FILE* o, const unsigned char* b, size_t n)
+{
+  if(n == 0) { fputs("-", o); return; }
+  for(size_t i = 0; i < n; ++i) fprintf(o, "%02x", b[i]);
+}
+
 // ---- canonical dump of a Variant tree (space separated tokens, types visible) ----
-static void dump(const Variant& v)
+static void dump(const Variant& v, FILE* o = stdout)
 {
   switch(v.getType())
   {
-  case Variant::nullType: printf(" n"); break;
-  case Variant::boolType: printf(v.toBool() ? " t" : " f"); break;
-  case Variant::intType: printf(" i%d", v.toInt()); break;
-  case Variant::int64Type: printf(" I%lld", (long long)v.toInt64()); break;
-  case Variant::uintType: printf(" u%u", v.toUInt()); break;
-  case Variant::uint64Type: printf(" U%llu", (unsigned long long)v.toUInt64()); break;
-  case Variant::doubleType: printf(" d %a", v.toDouble()); break;
+  case Variant::nullType: fprintf(o, " n"); break;
+  case Variant::boolType: fprintf(o, v.toBool() ? " t" : " f"); break;
+  case Variant::intType: fprintf(o, " i%d", v.toInt()); break;
+  case Variant::int64Type: fprintf(o, " I%lld", (long long)v.toInt64()); break;
+  case Variant::uintType: fprintf(o, " u%u", v.toUInt()); break;
+  case Variant::uint64Type: fprintf(o, " U%llu", (unsigned long long)v.toUInt64()); break;
+  case Variant::doubleType: fprintf(o, " d %a", v.toDouble()); break;
   case Variant::stringType:
     {
       String s = v.toString();
-      printf(" s"); vh::puthex((const unsigned char*)(const char*)s, s.length());
+      fprintf(o, " s"); fputhex(o, (const unsigned char*)(const char*)s, s.length());
       break;
     }
   case Variant::listType:
     {
       const List<Variant>& l = v.toList();
-      printf(" L%llu", (unsigned long long)l.size());
-      for(List<Variant>::Iterator i = l.begin(), end = l.end(); i != end; ++i) dump(*i);
+      fprintf(o, " L%llu", (unsigned long long)l.size());
+      for(List<Variant>::Iterator i = l.begin(), end = l.end(); i != end; ++i) dump(*i, o);
       break;
     }
   case Variant::arrayType:
     {
       const Array<Variant>& l = v.toArray();
-      printf(" A%llu", (unsigned long long)l.size());
-      for(Array<Variant>::Iterator i = l.begin(), end = l.end(); i != end; ++i) dump(*i);
+      fprintf(o, " A%llu", (unsigned long long)l.size());
+      for(Array<Variant>::Iterator i = l.begin(), end = l.end(); i != end; ++i) dump(*i, o);
       break;
     }
   case Variant::mapType:
     {
       const HashMap<String, Variant>& m = v.toMap();
-      printf(" M%llu", (unsigned long long)m.size());
+      fprintf(o, " M%llu", (unsigned long long)m.size());
       for(HashMap<String, Variant>::Iterator i = m.begin(), end = m.end(); i != end; ++i)
       {
         const String& k = i.key();
-        printf(" k"); vh::puthex((const unsigned char*)(const char*)k, k.length());
-        dump(*i);
+        fprintf(o, " k"); fputhex(o, (const unsigned char*)(const char*)k, k.length());
+        dump(*i, o);
       }
       break;
     }
@@ -61,21 +69,46 @@ static char* exact(const unsigned char* b, size_t n, size_t& len)
   return r;
 }
 
-static void parse_and_print(const char* text)
+// the answer of one parse call as text: "ok <dump>" or "err <line> <column> <message>"
+static void print_result(FILE* o, bool ok, const Json::Parser& parser, const Variant& v)
 {
-  Json::Parser parser;
-  Variant v;
-  if(parser.parse(text, v))
+  if(ok)
   {
-    printf("ok");
-    dump(v);
+    fprintf(o, "ok");
+    dump(v, o);
   }
   else
   {
     String msg = parser.getErrorString();
-    printf("err %d %d ", parser.getErrorLine(), parser.getErrorColumn());
-    for(const char* p = msg; *p; ++p) putchar(*p == ' ' ? '_' : *p);
+    fprintf(o, "err %d %d ", parser.getErrorLine(), parser.getErrorColumn());
+    for(const char* p = msg; *p; ++p) fputc(*p == ' ' ? '_' : *p, o);
   }
+}
+
+static char* result_string(bool ok, const Json::Parser& parser, const Variant& v)
+{
+  char* buf = 0; size_t n = 0;
+  FILE* o = open_memstream(&buf, &n);
+  print_result(o, ok, parser, v);
+  fclose(o);
+  return buf;
+}
+
+// a fresh Parser and a fresh Variant
+static char* fresh_result(const char* text)
+{
+  Json::Parser parser;
+  Variant v;
+  bool ok = parser.parse(text, v);
+  return result_string(ok, parser, v);
+}
+
+static void parse_and_print(const char* text)
+{
+  Json::Parser parser;
+  Variant v;
+  bool ok = parser.parse(text, v);
+  print_result(stdout, ok, parser, v);
 }
 
 // ---- value trees: one token, comma separated prefix form  L2,i1,M1,k61,n ----
@@ -152,19 +185,21 @@ static void op(long c, long, vh::Tok& t)
   }
   else if(!strcmp(t.v[0], "strip") && t.n >= 2)
   {
-    size_t n, len; unsigned char* b = vh::unhex(t.v[1], n, 1);
-    char* text = exact(b, n, len); free(b);
+    // the String holds all n bytes (0 bytes included) in an exact-size buffer: n bytes and the terminator
+    size_t n; unsigned char* b = vh::unhex(t.v[1], n, 1);
     {
       String s;
-      s.attach(text, len);
+      s.attach((const char*)b, n);
       String r = Json::stripComments(s);
       vh::puthex((const unsigned char*)(const char*)r, r.length());
     }
-    free(text);
+    free(b);
   }
-  else if(!strcmp(t.v[0], "rt") && t.n >= 2)
+  else if((!strcmp(t.v[0], "rt") && t.n >= 2) || (!strcmp(t.v[0], "rtinto") && t.n >= 3))
   {
-    char* cur = t.v[1];
+    // toString, then parse; rtinto: the target of parse already holds the tree <t.v[1]>
+    bool into = t.v[0][2] == 'i';
+    char* cur = t.v[into ? 2 : 1];
     Variant v;
     build(cur, v);
     String s = Json::toString(v);
@@ -172,16 +207,81 @@ static void op(long c, long, vh::Tok& t)
     char* text = exact((const unsigned char*)(const char*)s, s.length(), len);
     Json::Parser parser;
     Variant w;
+    if(into) { char* c0 = t.v[1]; build(c0, w); }
     bool ok = parser.parse(text, w);
     printf("%d | ", ok && v == w ? 1 : 0);
     vh::puthex((const unsigned char*)(const char*)s, s.length());
     printf(" ");
-    if(ok) { printf("ok"); dump(w); }
-    else
+    print_result(stdout, ok, parser, w);
+    free(text);
+  }
+  else if(!strcmp(t.v[0], "parse2") && t.n >= 4)
+  {
+    // one Parser object, two texts; flag 1: also one target Variant for both calls.
+    // first section: 1 iff both answers are those of a fresh Parser with a fresh Variant
+    bool shared = t.v[1][0] == '1';
+    Json::Parser parser;
+    Variant keep;
+    char* res[2]; bool same = true;
+    for(int k = 0; k < 2; ++k)
     {
-      String msg = parser.getErrorString();
-      printf("err %d %d ", parser.getErrorLine(), parser.getErrorColumn());
-      for(const char* p = msg; *p; ++p) putchar(*p == ' ' ? '_' : *p);
+      size_t n, len; unsigned char* b = vh::unhex(t.v[2 + k], n, 1);
+      char* text = exact(b, n, len); free(b);
+      Variant own;
+      Variant& target = shared ? keep : own;
+      bool ok = parser.parse(text, target);
+      res[k] = result_string(ok, parser, target);
+      char* ref = fresh_result(text);
+      if(strcmp(ref, res[k])) same = false;
+      free(ref); free(text);
+    }
+    printf("%d | %s | %s", same ? 1 : 0, res[0], res[1]);
+    free(res[0]); free(res[1]);
+  }
+  else if(!strcmp(t.v[0], "into") && t.n >= 3)
+  {
+    // parse <text> into a Variant that holds <tree>; first section: 1 iff the answer is that of a fresh Variant
+    char* cur = t.v[1];
+    Variant target;
+    build(cur, target);
+    size_t n, len; unsigned char* b = vh::unhex(t.v[2], n, 1);
+    char* text = exact(b, n, len); free(b);
+    Json::Parser parser;
+    bool ok = parser.parse(text, target);
+    char* r = result_string(ok, parser, target);
+    char* ref = fresh_result(text);
+    printf("%d | %s", strcmp(ref, r) ? 0 : 1, r);
+    free(ref); free(r); free(text);
+  }
+  else if(!strcmp(t.v[0], "sparse") && t.n >= 3)
+  {
+    // the other entry points: c = static Json::parse(const char*), s = static Json::parse(const String&),
+    // p = Parser::parse(const String&); the static ones report through Error::getErrorString()
+    size_t n, len; unsigned char* b = vh::unhex(t.v[2], n, 1);
+    char* text = exact(b, n, len); free(b);
+    {
+      String str;
+      str.attach(text, len);
+      Variant v;
+      char m = t.v[1][0];
+      if(m == 'p')
+      {
+        Json::Parser parser;
+        bool ok = parser.parse(str, v);
+        print_result(stdout, ok, parser, v);
+      }
+      else
+      {
+        Error::setErrorString(String("stale"));
+        bool ok = m == 'c' ? Json::parse(text, v) : Json::parse(str, v);
+        if(ok) { printf("ok"); dump(v); }
+        else
+        {
+          String msg = Error::getErrorString();
+          printf("serr ");
+          for(const char* p = msg; *p; ++p) putchar(*p == ' ' ? '_' : *p);
+        }
+      }
     }
     free(text);
   }
